@@ -393,6 +393,16 @@ func impliedAtoms(cond ast.Expr, edgeTrue bool) []LitAtom {
 				depth--
 				return
 			}
+		case *ast.CallExpr:
+			// a predicate helper reads as the condition it returns
+			// (the call itself stays an atom too: some rules know the helper by name)
+			if d, ok := predInline[x]; ok && depth < 4 {
+				out = append(out, LitAtom{e, want})
+				depth++
+				walk(d, want)
+				depth--
+				return
+			}
 		}
 		out = append(out, LitAtom{e, want})
 	}
@@ -473,6 +483,14 @@ func (f *FCFG) exprEntails(cond ast.Expr, want bool, b *cfg.Block, cls func(e as
 					expanding[x.Name] = true
 					collect(d)
 					expanding[x.Name] = false
+					expanded[e] = d
+					return
+				}
+			}
+		case *ast.CallExpr:
+			if nm, _ := cls(e); nm == "" {
+				if d, ok := predInline[x]; ok {
+					collect(d)
 					expanded[e] = d
 					return
 				}
@@ -623,6 +641,11 @@ func (f *FCFG) inspectCond(cond ast.Expr, visit func(e ast.Expr), depth int) {
 		visit(e)
 		if id, ok := e.(*ast.Ident); ok && depth < 3 {
 			if d := f.boolDef(id); d != nil {
+				f.inspectCond(d, visit, depth+1)
+			}
+		}
+		if ce, ok := e.(*ast.CallExpr); ok && depth < 3 {
+			if d, ok := predInline[ce]; ok {
 				f.inspectCond(d, visit, depth+1)
 			}
 		}
